@@ -32,6 +32,11 @@ RULE = ('6 % of the runs: a scheduled world (C02/C03 machinery) in which a '
         'subset, by undoing the undo; a DB-level arm drives DB.undo / '
         'undoMultiple with two connections; non-trivial = >= 1 undo '
         'committed or refused; distinct = outcome sequence')
+RULE += ('  '
+         'Later additions to the scheduled world (10 % of the runs): '
+         'undos that must merge (the undone transaction is not the '
+         'latest), bystander tasks asking the storage itself, '
+         'line-level pre-emption inside the file storage as well. ')
 BUDGET = {'quick': {'runs': 8000, 'wall': 300, 'chunk': 25},
           'thorough': {'runs': 500000, 'wall': 1200, 'chunk': 100}}
 ASSUMPTIONS = [
